@@ -7,11 +7,12 @@ ENTRY = {
          "reset_ops": ["new"],
          "n_quick": 20000, "seeds_quick": 2, "n_thorough": 150000, "seeds_thorough": 8},
     ],
-    "level_text": "Kernel-checked Lean theorems over all event sequences of the broadcast protocol (any cluster size, any set of dishonest keys, any order of registrations / Broadcast calls / signature requests / messages with any transport identity, any payloads, any signature list incl. subsets, permutations, substitutions and replays from other ids, and signatures made by the same keys in other sessions): the 8-byte-length-prefixed hash input is injective (proved, no assumption); a callback invocation implies every honest member - the receiver included - signed exactly (session,id,payload) inside this session; a member signs at most one hash per (requester,id); agreement on (sender,id) for an honest sender with any number of faulty members, and for a single faulty identity under sender-binding callbacks. Two negative witnesses are proved: two colluding members (D-10, scoped) and a single relaying member when the callback does not bind the sender (pedersen node_pubkeys, finding D-11). The model is tied to dkg/bcast by differential correspondence on n=3..6 real Components (real K1 keys, harness as transport and adversary) incl. a bit-for-bit SHA-256 check of the hash-input encoding.",
+    "level_text": "Kernel-checked Lean theorems over all event sequences of the broadcast protocol (any cluster size, any set of dishonest keys, any order of registrations / Broadcast calls / signature requests / messages with any transport identity, any payloads, any signature list incl. subsets, permutations, substitutions and replays from other ids, and signatures made by the same keys in other sessions): the 8-byte-length-prefixed hash input is injective (proved, no assumption); a callback invocation implies every honest member - the receiver included - signed exactly (session,id,payload) inside this session; a member signs at most one hash per (requester,id), also for overlapping requests (any interleaving of the two atomic handler steps); agreement on (sender,id) for an honest sender with any number of faulty members, and for a single faulty identity under sender-binding callbacks. Two negative witnesses are proved: two colluding members (D-10, scoped) and a single relaying member when the callback does not bind the sender (pedersen node_pubkeys, finding D-11). The model is tied to dkg/bcast by differential correspondence on n=3..6 real Components (real K1 keys, harness as transport and adversary) incl. a bit-for-bit SHA-256 check of the hash-input encoding.",
     "level_note": "Trusted: Lean kernel, Go harness and line driver. Signatures and SHA-256 are symbolic (unforgeability and collision resistance are explicit hypotheses of the theorems, never axioms); libp2p authenticates the transport identity handed to the handlers.",
     "trusted_base": [
         "model CharonV/Model/Bcast.lean mirrors dkg/bcast/{impl,server,client}.go (newHashAny encoding, dedupHash, handleSigRequest, newPeerK1Verifier, handleMessage, client.Broadcast); tied by correspondence on the real handlers through hook dkg/bcast/verif_export.go (unmodified bcast.New wiring)",
         "hash-input encoding: Lean `encode` + core-Lean SHA-256 reproduces bcast.newHashAny bit-for-bit on every `hash` op",
+        "atomicity of handleSigRequest's check-and-record (server.dedupHash under s.mu) is NOT proved from the Go source: the model's onSigRequest is one atomic step, and this is tied only by the racing `sreq2` ops of the correspondence stream (two goroutines call the real handler for one (requester,id) with different payloads; hook VerifWrapSign holds the first request inside signing until the second has returned or reached signing too; outcome must equal one of the two sequential orders; monitor bcast:signed_two_hashes_same_requester_id)",
         "symbolic K1 signatures (k1util.Sign / Verify65) and SHA-256",
         "application oracles (CheckMessage result, Any.UnmarshalNew result, which sender the callback accepts) are computed by the harness without bcast code and passed to the model per op",
     ],
